@@ -418,8 +418,10 @@ def e1_sentinel(ctx):
                     if isinstance(px, ast.Call) and isinstance(px.func, ast.Attribute) and px.func.attr in ("get", "__getitem__") and isinstance(px.func.value, ast.Name) \
                             and px.func.value.id == pname and px.args and px.args[0] is x:
                         continue
-                    if isinstance(px, ast.Call) and au.call_tail(px) in ("print", "str", "repr", "format", "debug", "info", "log"):
+                    if isinstance(px, ast.Call) and au.call_tail(px) in ("print", "str", "repr", "format", "debug", "info", "log", "warning", "warn", "error", "exception", "critical"):
                         continue
+                    if isinstance(px, ast.FormattedValue):
+                        continue            # shown in an f-string
                     return False
             return True
         for u in uses:
@@ -1505,6 +1507,8 @@ def _q1_rest(ctx, repo, cls, item, fields, info):
                 good = False
             if good is False and any(tail_of(c_) in HEAPQ_FUNCS for c_ in au.calls(st)):
                 good = None         # the method also goes through heapq: whether the list stays a heap is not decided here
+            if good is False and st.name not in ("__init__", "push", "get", "pop", "empty", "front"):
+                good = None         # a method the rule does not know (clear, remove ..): not part of the queue protocol used by the searches
             if good is True:
                 ctx.ok(R, ctx.site(PQ, st, n), "self.data touched through heapq only")
             elif good is False:
@@ -1550,6 +1554,15 @@ def _q1_every_push_inserts(ctx, pu, Fp):
     if not any(is_push(c) for c in au.calls(Fp.fn)):
         return          # reported by the push rule
     bad = [(k, n) for k, n, st in fl.exits if k in ("return", "fall") and "pushed" not in st]
+    opt_params = {a_.arg for a_ in (pu.args.args[len(pu.args.args) - len(pu.args.defaults):] if pu.args.defaults else [])} | {a_.arg for a_ in pu.args.kwonlyargs}
+    exit_conds = set()
+    for k_, n_ in bad:
+        if n_ is not None:
+            for e_, p_ in sk.atoms(sk.path_conds(n_)):
+                exit_conds |= au.names(e_)
+    if bad and opt_params and (exit_conds & opt_params):
+        ctx.undecided("C09-Q1", ctx.site(PQ, pu), "PriorityQueue.push returns without inserting under an optional parameter", "")
+        return
     if bad and [c_ for c_ in au.calls(Fp.fn) if isinstance(c_.func, ast.Attribute) and _self_data(c_.func.value) and c_.func.attr in ("append", "insert", "extend")]:
         ctx.undecided("C09-Q1", ctx.site(PQ, pu), "PriorityQueue.push inserts into self.data on a path that does not go through heappush", "")
         return
@@ -1622,7 +1635,9 @@ def _q1_priorities_immutable(ctx, fields):
                             n += 1
                             known_fn = modname == PATHS or q in ("PriorityQueue.push", "PriorityQueue.get", "PriorityQueue.pop", "PriorityQueue.empty",
                                                                  "PriorityQueue.__init__", "PriorityQueue.front")
-                            if not known_fn:
+                            popped_here = any(isinstance(v_, ast.Call) and au.call_tail(v_) in ("heappop", "get", "pop") for st_ in au.stmts(fn.body)
+                                              for nm_, v_ in sym.split_assign(st_) if isinstance(x.value, ast.Name) and nm_ == x.value.id)
+                            if not known_fn or popped_here:
                                 ctx.undecided("C09-Q1", ctx.site(modname, fn, st), "a priority is modified by a method the rule does not know", "")
                                 continue
                             ctx.fail("C09-Q1", ctx.site(modname, fn, st), "priority of an existing PriorityItem is modified in place",
@@ -1840,6 +1855,17 @@ def _dijkstra_loop(ctx, modname, fn0, F, Q, loop, item, need_pred=True):
         und("C09-D3", loop, "the relaxation `if label[nv] > candidate: label[nv] = candidate` is not recognised",
             "no item store in the loop is guarded by a comparison on the stored table or has the form table[v] + weight")
         return roles
+    # several neighbour loops that relax (a fast path per weight mode, extra links ..): not analysed as one scheme
+    relax_loops = {id(a_) for c_ in cand_stores for a_ in au.ancestors(c_[0]) if isinstance(a_, ast.For) and F.inside(a_, loop)
+                   and any(sk.is_sub(t_, c_[3]) for s_, t_, v_ in hr.item_stores(a_))}
+    inner_most = set()
+    for c_ in cand_stores:
+        fl_ = [a_ for a_ in au.ancestors(c_[0]) if isinstance(a_, ast.For) and F.inside(a_, loop)]
+        if fl_:
+            inner_most.add(id(fl_[0]))
+    if len(inner_most) > 1:
+        und("C09-D3", loop, "the search relaxes labels in several neighbour loops")
+        return roles
     # all candidates must agree on the label table and the neighbour
     LBLs = {c[3] for c in cand_stores}
     if len(LBLs) != 1:
@@ -1874,9 +1900,13 @@ def _dijkstra_loop(ctx, modname, fn0, F, Q, loop, item, need_pred=True):
     # ---------------------------------------------------------------- D2
     vis = None
     vis_conds = LC(nloop, keep=(v,))
+    marked_tabs = {fm_[0].id for st_ in au.stmts(loop.body) if (fm_ := hr.flag_mark(st_)) and isinstance(fm_[0], ast.Name) and isinstance(fm_[1], ast.Name)
+                   and F.root(fm_[1].id, st_) == v}
     for e, p in vis_conds:
         ft = hr.flag_test(e, p)
         if ft and isinstance(ft[0], ast.Name) and isinstance(ft[1], ast.Name) and F.root(ft[1].id, nloop) == v and ft[2] is False:
+            if vis is not None and vis in marked_tabs and ft[0].id not in marked_tabs:
+                continue            # another membership test on the popped node (an exclusion set ..): the visited table is the marked one
             vis = ft[0].id
         # `old = visited[v]` read before the mark, tested after it: `if old: continue`
         if vis is None and isinstance(e, ast.Name) and not p:
@@ -2127,6 +2157,8 @@ def _dijkstra_loop(ctx, modname, fn0, F, Q, loop, item, need_pred=True):
             okp = isinstance(pv, ast.Name) and (pv.id == v or pv.id in ftargets) and F.root(pv.id, st) != F.root(nv, st)
             if okp:
                 ctx.ok("C09-D3", S(st), "predecessor[nv] = expanded node / crossed edge")
+            elif isinstance(pv, ast.Name) and F.root(pv.id, st) != F.root(nv, st) and not (len(pred_stores) == 1 and pv.id in F.params):
+                und("C09-D3", st, "a per-node table written next to the label records something the rule does not identify as a predecessor")
             elif isinstance(pv, ast.Name):
                 ctx.fail("C09-D3", S(st), "the predecessor of the neighbour is not set to the expanded node (or the edge crossed)",
                          f"it is set to `{_generic(pv, LBL, nv, v)}`: back-tracking follows pred[] from the target to the start")
@@ -2189,6 +2221,40 @@ def _dijkstra_loop(ctx, modname, fn0, F, Q, loop, item, need_pred=True):
         is_label_read = is_lbl(pr_, nv, c) or is_lbl(pres, nv, c) or (isinstance(pr_, ast.Name) and pr_.id in mirrors)
         is_cand = cres is not None and hr.same(pres, cres)
         if not (is_label_read or is_cand):
+            # A*: priority = label[nv] + h(nv) with h a local callable chosen on sibling branches.  A lower bound computed from the geometry (a straight
+            # line to the goal) is consistent only for weights that are geometric lengths: it must be switched on under `weights == 'length'` only
+            hterms = hr.add_terms(pr_)
+            hcalls = [t_ for t_ in hterms if isinstance(t_, ast.Call) and isinstance(t_.func, ast.Name) and len(t_.args) == 1 and isinstance(t_.args[0], ast.Name)
+                      and F.root(t_.args[0].id, c) == F.root(nv, c)]
+            rest_ = [t_ for t_ in hterms if t_ not in hcalls]
+            if len(hcalls) == 1 and len(rest_) == 1 and (is_lbl(rest_[0], nv, c) or is_lbl(F.resolve(rest_[0], c, keep=keep), nv, c)):
+                hname = hcalls[0].func.id
+                binds_ = sk.callable_bindings(F.fn).get(hname, [])
+                verdicts = []
+                for bst_, bargs_ in binds_:
+                    body_ = bst_.value.body if isinstance(bst_, ast.Assign) and isinstance(bst_.value, ast.Lambda) else None
+                    if body_ is None:
+                        verdicts.append(None)
+                        continue
+                    if order.fold_const(body_) == 0:
+                        verdicts.append(True)
+                        continue
+                    geometric = any(isinstance(n_, ast.Call) and au.call_tail(n_) in ("distance", "norm", "dist", "sqrt") for n_ in ast.walk(body_)) or \
+                        any(isinstance(n_, ast.Attribute) and n_.attr == "vertices" for n_ in ast.walk(body_))
+                    if not geometric:
+                        verdicts.append(None)
+                        continue
+                    conds_ = [(F.resolve(e_, bst_), p_) for e_, p_ in sk.atoms(sk.path_conds(bst_))]
+                    only_length = any(isinstance(e_, ast.Compare) and len(e_.ops) == 1 and isinstance(e_.ops[0], ast.Eq) and p_ and
+                                      any(isinstance(x_, ast.Constant) and x_.value == "length" for x_ in [e_.left, e_.comparators[0]]) for e_, p_ in conds_)
+                    verdicts.append(True if only_length else False)
+                if binds_ and all(v_ is True for v_ in verdicts):
+                    good_push.append(c)
+                    continue
+                if any(v_ is False for v_ in verdicts):
+                    why_bad.append(("fail", "the queue priority adds a straight-line (geometric) lower bound to the label under weight modes other than 'length'"
+                                            " (for unit or custom weights the bound over-estimates: the first settlement of the target is not final)"))
+                    continue
             if is_lbl(pres, v, c) or is_lbl(pr_, v, c):
                 why_bad.append(("fail", "the neighbour is pushed with the label of the expanded node"))
             else:
@@ -2231,6 +2297,9 @@ def _dijkstra_loop(ctx, modname, fn0, F, Q, loop, item, need_pred=True):
                  "after `label[nv]` decreases, `nv` must be queued with exactly that label (guarded at most by `not visited[nv]`): "
                  "a missing, stale, or wrongly guarded push settles vertices in the wrong order or never reaches them: "
                  + "; ".join(t for k, t in why_bad if k == "fail"))
+    elif not pushes and not opaque and [c_ for c_ in au.calls(loop) if isinstance(c_.func, ast.Attribute) and isinstance(c_.func.value, ast.Name) and c_.func.value.id == Q
+                                          and c_.func.attr not in ("get", "pop", "empty", "push", "front")]:
+        und("C09-D4", loop, "the queue is fed through a method the rule does not know")
     elif not pushes and not opaque:
         ctx.fail("C09-D4", s4, "no push of the neighbour with its updated label after the relaxation", "no push in the loop: the search stops at the start vertex")
     else:
@@ -2343,7 +2412,7 @@ def _stale_source(F, expr, skip=()):
                 if n2 != nm or not isinstance(v, ast.Call):
                     continue
                 t = au.call_tail(v)
-                if t in ("get_attribute", "attribute"):
+                if t in ("get_attribute", "attribute") and not any(isinstance(a_, ast.Name) and a_.id in F.params for a_ in v.args):
                     return f"`{au.src(v)[:60]}` (an attribute stored on the mesh by an earlier call)"
                 if any(k.arg == "persistent" and au.const(k.value) is True for k in v.keywords):
                     return f"`{au.src(v)[:70]}` (persistent: computed once, then re-used)"
@@ -2396,6 +2465,8 @@ def w1_weight_modes(ctx):
             if sub.value.id in params:
                 if is_edge_key:
                     ctx.ok("C09-W1", s, "custom weights keyed by edge_id(u, v)")
+                elif isinstance(k, ast.Name) and k.id in ps and (isinstance(body_r, ast.BinOp) or len([x_ for x_ in au.walk(body_r) if isinstance(x_, ast.Call)]) >= 1):
+                    ctx.undecided("C09-W1", s, "a per-vertex term is combined with another weight", "")
                 elif isinstance(k, ast.Name) and k.id in ps:
                     ctx.fail("C09-W1", s, "custom weights are indexed by a vertex instead of edge_id(u, v)",
                              "caller-supplied weights are per edge: the key must be the id of the edge joining the two endpoints")
@@ -2585,6 +2656,40 @@ def b1_backtracking(ctx, roles_by_fn):
         preds = {r["PRED"] for r in rs if r.get("PRED")}
         start_names = _start_names(F, rs)
         sents, _ = sentinels(F, repo.module(PATHS))
+        # a walk may stop early only at a node whose own path is complete: membership in a result table that was created with a placeholder for
+        # every key is true for the entries that are not built yet
+        early = False
+        for wl_ in [st_ for st_ in au.stmts(F.fn.body) if isinstance(st_, ast.While)]:
+            curs_ = set()
+            for e_, p_ in sk.atoms([(wl_.test, True)]):
+                if isinstance(e_, ast.Compare) and len(e_.ops) == 1 and isinstance(e_.ops[0], ast.Eq) and not p_:
+                    sides_ = [e_.left, e_.comparators[0]]
+                    if any(isinstance(x_, ast.Name) and (x_.id in start_names or F.root(x_.id, wl_) in start_names) for x_ in sides_):
+                        curs_ |= {x_.id for x_ in sides_ if isinstance(x_, ast.Name) and not (x_.id in start_names or F.root(x_.id, wl_) in start_names)}
+            if not curs_:
+                continue
+            tests_ = [(e_, p_, True) for e_, p_ in sk.atoms([(wl_.test, True)])]
+            for brk_ in [n_ for n_ in au.walk(wl_) if isinstance(n_, ast.Break)]:
+                tests_ += [(e_, p_, False) for e_, p_ in F.conds(brk_, stop=wl_)]
+            for e_, p_, in_test in tests_:
+                if not (isinstance(e_, ast.Compare) and len(e_.ops) == 1 and isinstance(e_.ops[0], (ast.In, ast.NotIn)) and isinstance(e_.left, ast.Name)
+                        and e_.left.id in curs_ and isinstance(e_.comparators[0], ast.Name)):
+                    continue
+                member = isinstance(e_.ops[0], ast.In) == bool(p_)          # the atom says: the node is in the table
+                stops_when_member = (not member) if in_test else member
+                tab_ = F.root(e_.comparators[0].id, wl_)
+                d_ = F.definition(tab_, wl_)
+                vals_ = hr.ctor_values(d_) if d_ is not None else []
+                prefilled = d_ is not None and (isinstance(d_, ast.DictComp) or (isinstance(d_, ast.Call) and au.call_tail(d_) in ("dict", "fromkeys") and d_.args)) \
+                    and vals_ and all((isinstance(v_, ast.List) and not v_.elts) or (isinstance(v_, ast.Call) and au.call_tail(v_) in ("list", "set", "dict") and not v_.args)
+                                      or hr.is_none(v_) for v_ in vals_)
+                if stops_when_member and prefilled:
+                    ctx.fail(R, ctx.site(PATHS, fn0, wl_), "the back-tracking stops at a node on its membership in a table that holds a placeholder for every target",
+                             why + ": the table is created with an empty entry for every key, so the test is also true for an entry that is not built yet - "
+                             "the path of the farther target is then completed with the empty placeholder and does not start at `start`")
+                    early = True
+        if early:
+            continue
         walks = hf_walk.find_walks(F, start_names)
         if not walks:
             ctx.undecided(R, site, "predecessor back-tracking loop `while v != start` not recognised", "")
@@ -2891,3 +2996,22 @@ def r1_forwarding(ctx):
                       note=f"{q} -> {c.func.id}: shared options forwarded")
     if n2 < 1:
         ctx.ok("C09-R2", ctx.site(PATHS, repo.func(PATHS, "shortest_path")), "no delegating call shares a defaulted option")
+
+
+
+# ----------------------------------------------------------------------- generic families (msa/rules/generic.py)
+_run_specific = run
+
+
+def run(ctx):
+    _run_specific(ctx)
+    from ..rules import generic
+    generic.apply(ctx, "C09", stale_modules=('processing.paths',))
+
+
+def _generic_rule_texts():
+    from ..rules import generic
+    return generic.rule_texts("C09", stale=True)
+
+
+RULES.update(_generic_rule_texts())
